@@ -17,13 +17,13 @@ demo() { # id m  -> runs the demonstration, returns its exit status
 }
 for id in "$@"; do
   for m in A B; do
-    cd /tmp/mut/$id || continue
+    cd ${MUTROOT:-/tmp/mut}/$id || continue
     [ -f OUT/$m.diff ] || { echo "$id$m: no patch"; continue; }
     git checkout -q -- . ; git apply OUT/$m.diff || { echo "$id$m: patch does not apply to its base"; continue; }
     tests=$(cargo test --workspace --no-fail-fast --offline -j8 2>&1 | grep -E "^test result" | awk '{p+=$4; f+=$6} END {print p"/"f}')
-    demo $id $m > /tmp/mut/$id.demo_$m.with.log 2>&1; with=$?
+    demo $id $m > ${MUTROOT:-/tmp/mut}/$id.demo_$m.with.log 2>&1; with=$?
     git checkout -q -- .
-    demo $id $m > /tmp/mut/$id.demo_$m.without.log 2>&1; without=$?
+    demo $id $m > ${MUTROOT:-/tmp/mut}/$id.demo_$m.without.log 2>&1; without=$?
     echo "$id$m: suite(pass/fail)=$tests demo_with_change_exit=$with demo_without_change_exit=$without"
   done
 done
